@@ -194,6 +194,22 @@ def local_defs(stmts):
     return defs
 
 
+def clone(n):
+    """a copy of a syntax (sub)tree that follows the grammar's fields only - copy.deepcopy also follows the `parent` links some trees carry and copies the whole module"""
+    if isinstance(n, list):
+        return [clone(x) for x in n]
+    if not isinstance(n, ast.AST):
+        return n
+    new = n.__class__()
+    for f in n._fields:
+        if hasattr(n, f):
+            setattr(new, f, clone(getattr(n, f)))
+    for a in ('lineno', 'col_offset', 'end_lineno', 'end_col_offset', 'cy_argtypes', 'cy_rettype', 'src_lineno', 'inlined_from'):
+        if hasattr(n, a):
+            setattr(new, a, getattr(n, a))
+    return new
+
+
 def inline(expr, defs, depth=8):
     """expr with local names replaced (recursively) by their definitions"""
     import copy
@@ -203,4 +219,4 @@ def inline(expr, defs, depth=8):
             if n.id in defs and depth > 0:
                 return inline(defs[n.id], defs, depth - 1)
             return n
-    return Sub().visit(copy.deepcopy(expr))
+    return Sub().visit(clone(expr))
